@@ -76,6 +76,17 @@ type gworld struct {
 	ptrs  []any    // placeholder pointer of variable i (*GT or *string)
 	byPtr map[uintptr]int
 	named bool
+	// share: build structurally identical sub-values as ONE Go object, and a slice that is a prefix of an earlier
+	// slice as a re-slice of it (same backing array, shorter length). Terms are immutable values, so sharing must not
+	// change any outcome; an implementation that short-cuts on pointer identity or on the backing array can get it wrong.
+	share  bool
+	built  map[string]any
+	slices []sharedSlice
+}
+
+type sharedSlice struct {
+	keys []string
+	val  []*GT
 }
 
 func namedCreator(varTyp any, name string) (any, bool) {
@@ -138,13 +149,48 @@ func (w *gworld) toGo(g *gv) any {
 		s := g.Str
 		return &s
 	case "tstruct":
-		return &GT{A: w.toGo(g.F[0]).(*GT), B: w.toGo(g.F[1]).(*GT), S: w.toGo(g.F[2]).(*string), L: w.toGo(g.F[3]).([]*GT)}
+		key := ""
+		if w.share {
+			key = showTerm(g.toTerm())
+			if v, ok := w.built[key]; ok {
+				return v
+			}
+		}
+		out := &GT{A: w.toGo(g.F[0]).(*GT), B: w.toGo(g.F[1]).(*GT), S: w.toGo(g.F[2]).(*string), L: w.toGo(g.F[3]).([]*GT)}
+		if w.share {
+			if w.built == nil {
+				w.built = map[string]any{}
+			}
+			w.built[key] = out
+		}
+		return out
 	case "nilslice":
 		return []*GT(nil)
 	case "slice":
+		keys := make([]string, len(g.F))
+		if w.share {
+			for i, e := range g.F {
+				keys[i] = showTerm(e.toTerm())
+			}
+		search:
+			for _, sl := range w.slices {
+				if len(sl.keys) < len(keys) {
+					continue
+				}
+				for i := range keys {
+					if sl.keys[i] != keys[i] {
+						continue search
+					}
+				}
+				return sl.val[:len(keys)] // a prefix (or the whole) of an earlier slice: same backing array
+			}
+		}
 		out := make([]*GT, len(g.F))
 		for i, e := range g.F {
 			out[i] = w.toGo(e).(*GT)
+		}
+		if w.share && len(out) > 0 {
+			w.slices = append(w.slices, sharedSlice{keys, out})
 		}
 		return out
 	}
@@ -209,6 +255,7 @@ func (w *gworld) bindings(st *gomini.State) micro.Substitutions {
 type gvGen struct {
 	r     *rand.Rand
 	sorts []string
+	trunc bool // abstract may also cut a slice down to a proper prefix
 }
 
 func (g *gvGen) varsOf(sort string) []int {
@@ -280,6 +327,11 @@ func (g *gvGen) abstract(v *gv) *gv {
 		return &gv{K: k, I: pick(r, vs)}
 	}
 	cp := *v
+	if v.K == "slice" && len(v.F) > 0 && g.trunc && r.Intn(3) == 0 {
+		// a proper prefix of the list (same leading elements): a different list, never unifiable with the whole one
+		cp.F = append([]*gv{}, v.F[:r.Intn(len(v.F))]...)
+		return &cp
+	}
 	cp.F = make([]*gv, len(v.F))
 	for i, f := range v.F {
 		cp.F[i] = g.abstract(f)
